@@ -316,8 +316,38 @@ func (c *Compiler) Bytecode() *Bytecode {
 	}
 }
 
+// instructionError is the panic value of emit and changeOperand when an
+// operand does not fit the instruction format. It is converted to a compile
+// error where the compilation of a file starts.
+type instructionError struct {
+	node   parser.Node
+	opcode Opcode
+	err    error
+}
+
+func (c *Compiler) limitError(ie *instructionError) error {
+	switch ie.opcode {
+	case OpDefineLocal, OpGetLocal, OpSetLocal, OpGetLocalPtr:
+		return c.error(ie.node, ErrSymbolLimit)
+	}
+	return c.error(ie.node, ie.err)
+}
+
 // Compile compiles parser.Node and builds Bytecode.
-func (c *Compiler) Compile(node parser.Node) error {
+func (c *Compiler) Compile(node parser.Node) (err error) {
+	if _, ok := node.(*parser.File); ok {
+		// capacity limits of the bytecode format are reported as errors
+		defer func() {
+			if r := recover(); r != nil {
+				ie, ok := r.(*instructionError)
+				if !ok {
+					panic(r)
+				}
+				err = c.limitError(ie)
+			}
+		}()
+	}
+
 	if c.trace != nil {
 		if node != nil {
 			defer untracec(tracec(c, fmt.Sprintf("%s (%s)",
@@ -457,7 +487,7 @@ func (c *Compiler) changeOperand(opPos int, operand ...int) {
 	inst := make([]byte, 0, 8)
 	inst, err := MakeInstruction(inst, op, operand...)
 	if err != nil {
-		panic(err)
+		panic(&instructionError{opcode: op, err: err})
 	}
 	c.replaceInstruction(opPos, inst)
 }
@@ -544,7 +574,7 @@ func (c *Compiler) emit(node parser.Node, opcode Opcode, operands ...int) int {
 	inst := make([]byte, 0, 8)
 	inst, err := MakeInstruction(inst, opcode, operands...)
 	if err != nil {
-		panic(err)
+		panic(&instructionError{node: node, opcode: opcode, err: err})
 	}
 
 	pos := c.addInstruction(inst)
